@@ -250,9 +250,10 @@ def c19_prop():
         j.setdefault("mask", P(19))   # the ring interpreter arms the C18 allocation counters only under P18
     quick.append(H(RING, "array_witness_c2", "witness", replay=("ring_hist_array", 2), mask=P(19), witness_bit=5, est_s=20,
                    bounds="witness twin: index wrap-around and drop of a non-empty buffer"))
-    thorough = quick + [
-        H(RING, "fixed_hist_c2_n4", "hold", replay=("ring_hist_fixed", 2), mask=P(19), est_s=600, timeout=1500, mem_gb=30, bonus=True,
-          bounds="FixedHeapBuf capacity 2, 4 operations (VecDeque wrap-around; bonus, ran out of memory at 15 GB in probes)"),
+    thorough = quick + [H(RING, "array_step_c%d" % c, "step", profile="full", est_s=60, mask=P(19),
+                          bounds="E-STEP ArrayBuf<Tag,[Tag;%d]>: any index state, 1 of push|pop|Drop" % c) for c in (5, 6, 7)] + [
+        H(RING, "array_hist_c5", "hold", replay=("ring_hist_array", 5), mask=P(19), est_s=300, timeout=3000,
+          bounds="E-HIST ArrayBuf capacity 5: 12 push/pop operations vs FIFO model, drop counters at the end"),
     ]
     return {"quick": quick, "thorough": thorough,
             "functions": ["ArrayBuf::push", "ArrayBuf::pop", "ArrayBuf::next_idx", "<ArrayBuf as Drop>::drop", "ArrayBuf::len/can_push/capacity/is_empty",
@@ -414,8 +415,6 @@ def c15_prop():
     thorough = quick + [
         H(TIMER, "hist_c15_k3_drop_a5", "hold", replay=("timer_hist_noop", 5 | (1 << 11)), mask=P(15), est_s=900, est_gb=4, timeout=3300, bounds="E-HIST timer, 5 operations, no check"),
         H(TIMER, "step_c15_check_k3", "step", est_s=3000, est_gb=8, timeout=3400, bonus=True, bounds="E-STEP check_expirations over ANY heap of 3 registered futures (bonus: did not finish in 15 min in probes)"),
-        H(TIMER, "hist_c15_k2_chk_a3b1", "hold", replay=("timer_hist_noop", 3 | (1 << 4) | (2 << 8) | (1 << 10)), mask=P(15), est_s=3000, est_gb=20, timeout=3400, mem_gb=40, bonus=True,
-          bounds="E-HIST timer K=2 with check_expirations (bonus: ran out of memory at 13 GB in probes)"),
     ]
     return {"quick": quick, "thorough": thorough,
             "functions": ["TimerState::try_wait", "TimerState::remove_waiter", "TimerState::next_expiration", "TimerState::check_expirations",
@@ -604,7 +603,6 @@ def c17_prop():
         H(MPMC, "hist_c17_c1_st_p1_n5", "hold", replay=("mpmc_hist_noop", mpmc_cfg(1, "st", 1, 1)), mask=P(17), est_s=3000, est_gb=8, timeout=3400, bonus=True, bounds="E-HIST mpmc stream with try_send/drop (bonus)"),
         H(SEMSH, "hist_c17_n4", "hold", replay=("semsh_hist_noop", 2), mask=P(17), est_s=400, est_gb=5, timeout=3000,
           bounds="shared semaphore acquire future: is_terminated() after every operation, N=4 (Option<Arc> restored after a Pending poll)"),
-        H(LIFE, "life_c17_mpmc_n4", "hold", replay=("life_mpmc", 0), mask=P(17), est_s=1500, est_gb=16, timeout=3000, bonus=True, bounds="shared mpmc receive future over handle histories (bonus: memory-hungry)"),
     ]
     return {"quick": quick, "thorough": thorough, "functions": ["every Future::poll / FusedFuture::is_terminated / Stream::poll_next / FusedStream::is_terminated impl of the crate"],
             "instantiations": ["all future types, borrowed; shared send/receive/state futures (repoll + lifecycle); ChannelStream"],
